@@ -32,6 +32,8 @@ SEQ_LEN = {  # sequence a tag list iterates over -> expression giving the size o
 
 def run(model, rep, tier):
     rep.explanation = __doc__.strip()
+    from ._common import caches_for
+    caches_for(model, rep, 'C15')
     rep.not_decided = 'uniqueness of tags inside one type for nearly coincident sites; wording of the report'
     rep.rule('tag-type-tables', 'tag types agree between generatetags, __taglist__, tags2preene rows, __str__ and HDF5')
     rep.rule('row-array-size', 'the sequence generating a tag list has the length of the array its row fills')
